@@ -157,6 +157,19 @@ def _():
         o = sm.options[0]
         d = sm.next_state_transit_time_reward_dist('s0', o)
         res[sd] = {repr(k): v for k, v in d.items()}
+    # the same seeded problem built TWICE in one process from sub-goal options that were given no name: identical option models both times
+    from msdm.core.semimdp.option import PlanToSubgoalOption
+    from msdm.algorithms import ValueIteration
+
+    def build():
+        m = mdp()
+        opts = [PlanToSubgoalOption(mdp=m, initial_states=['s0', 's1'], subgoals=['s2', 'goal'], planner=ValueIteration(), max_steps=200),
+                PlanToSubgoalOption(mdp=m, initial_states=['s0', 's1', 's2'], subgoals=['goal'], planner=ValueIteration(), max_steps=200)]
+        sm2 = SemiMarkovDecisionProcess(mdp=m, options=opts, n_option_simulations=5, seed=20231)
+        return [{repr(k): v for k, v in sm2.next_state_transit_time_reward_dist(s_, o_).items()} for o_ in opts for s_ in ('s0', 's1')]
+    first, second = build(), build()
+    res['unnamed'] = first
+    res['holds:a-seeded-problem-with-unnamed-options-gives-the-same-option-models-when-built-again'] = (first == second)
     return res
 
 
